@@ -172,6 +172,63 @@ def _histx(rng, kind, tier):
                 x %= s
     return "histx.%s %s h:%s" % (kind, ctor, ";".join(ops))
 
+def _ctor_for(rng, kind, v):
+    """some constructor (old or new) whose result is exactly v"""
+    signed = kind == "i"
+    routes = ["str", "str", "pb", "arb", "arb", "arbrest", "raw"]
+    fitting = [ty for ty in (TYPES_U + (TYPES_I if signed else [])) if _lo_hi(ty)[0] <= v <= _lo_hi(ty)[1]]
+    if fitting:
+        routes += ["prim", "prim"]
+    r = rng.choice(routes)
+    if r == "str":
+        radix = rng.choice([2, 10, 16, 36, rng.randrange(2, 37)])
+        return "str:%d:%s" % (radix, T(_text(rng, v, radix, signed))[2:])
+    if r == "pb":
+        radix = rng.choice([2, 10, 16, 36])
+        return "pb:%d:%s" % (radix, _text(rng, v, radix, signed).encode().hex())
+    if r == "prim":
+        return "prim:%s:%d" % (rng.choice(fitting), v)
+    digits = to_digits(abs(v)) + [0] * rng.choice([0, 0, 1, 3])
+    if r == "raw":
+        if signed:
+            return "parts:%s:%s" % ("-" if v < 0 else rng.choice("+0") if v == 0 else "+", fmt_digits(digits))
+        return "vec:%s" % fmt_digits(digits)
+    sign = None
+    if signed:
+        sign = (1 if v > 0 else -1) if v else rng.choice([1, -1])
+    return "%s:%s" % (r, _arb_bytes(rng, digits, sign, slack=False).hex())
+
+def _detour(rng, kind, v):
+    """operations that leave v unchanged"""
+    ops = []
+    for _ in range(rng.choice([0, 0, 1, 2])):
+        if kind == "i":
+            ty = rng.choice(TYPES_U + TYPES_I)
+            lo, hi = _lo_hi(ty)
+            s = rng.choice([hi, lo if lo else 1, 1, rng.randrange(lo, hi + 1)]) or 1
+            ops += rng.choice([["addp:%s:%d" % (ty, s), "subp:%s:%d" % (ty, s)], ["subp:%s:%d" % (ty, s), "addp:%s:%d" % (ty, s)],
+                               ["mulp:%s:%d" % (ty, s), "divp:%s:%d" % (ty, s)], ["neg", "neg"], ["not", "not"]])
+        else:
+            w = rng.choice([32, 64, 128])
+            s = rng.choice([(1 << w) - 1, 1, rng.getrandbits(w) or 1])
+            ops += rng.choice([["adds:%d:%d" % (w, s), "subs:%d:%d" % (w, s)], ["muls:%d:%d" % (w, s), "divs:%d:%d" % (w, s)],
+                               ["shl:%d" % (s % 200), "shr:%d" % (s % 200)]])
+    return ";".join(ops)
+
+def _xpair(rng, tier):
+    kind = rng.choice("ui")
+    lens = (0, 1, 1, 2, 3, 5) if tier != "thorough" else (0, 1, 1, 2, 3, 5, 9)
+    a = _big(rng, lens) * (rng.choice([1, -1]) if kind == "i" else 1)
+    if rng.random() < 0.3 and a.bit_length() > 100:
+        a = a % (1 << rng.choice([7, 8, 63, 64, 127]))            # values that fit primitives: more routes
+    b = a
+    if rng.random() < 0.3:
+        b = rng.choice([a + 1, a - 1, -a, a + (1 << 64), a ^ (1 << 64), a << 64, _near(rng, a)])
+        if kind == "u":
+            b = abs(b)
+    return "histx.pair %s %s h:%s %s h:%s" % (kind, _ctor_for(rng, kind, a), _detour(rng, kind, a),
+                                               _ctor_for(rng, kind, b), _detour(rng, kind, b))
+
 def c04(rng, tier):
     cases = []
     thorough = tier == "thorough"
@@ -208,6 +265,9 @@ def c04(rng, tier):
     # histories with the extra constructors / BigInt scalar operations
     for i in range(6000 if thorough else 500):
         cases.append(_histx(rng, "ui"[i % 2], tier))
+    # two values obtained through different constructors / detours: equal integers must be indistinguishable
+    for _ in range(4000 if thorough else 400):
+        cases.append(_xpair(rng, tier))
     # documented panics inside a history: bad radix in the constructor, scalar division by zero
     # (texts that do not parse are the business of u.parse_err / i.parse_err, C06: here the harness would
     # `expect` on the error, which is a failure of the script, not of the crate)
